@@ -226,7 +226,7 @@ class IoRead(OpSpec):
             fs.files[path] = data
         if not res.ok:
             sess.io_failed += 1
-            if any(k in ("eio_read",) for k in fired):
+            if any(k in ("eio_read",) for k in fired) and res.exc_name != "OpTimeout":
                 if not _is_oserror(res.exc):
                     out.probes.append("read_error_surfaced_as_" + res.exc_name)
                 out.probes.append("read_fault_raised")
@@ -354,7 +354,7 @@ class IoWrite(OpSpec):
             sess.io_failed += 1
             fs.tainted.add(path)
             fs.lineage.pop(path, None)
-            if any(k in ("eio_write", "enospc", "close_error") for k in fired):
+            if any(k in ("eio_write", "enospc", "close_error") for k in fired) and res.exc_name != "OpTimeout":
                 out.probes.append("write_fault_raised")
                 return out
             if frame_only:
